@@ -456,6 +456,8 @@ class H(Harness):
         draws = [j for j, o in enumerate(ops) if o[0] == 'Dr']
         dist_at = sorted(set(rnd.sample(draws, min(2, len(draws))) + [L_ - 1]))
         c = {'kind': kind, 'ops': ops, 'dump_at': dump_at, 'dist_at': dist_at, 'cls': rnd.choice(['DrawSet', 'DrawSet', 'Locus'])}
+        # iterations that are begun and abandoned (a peek at the first element) before every other call: they change nothing
+        c['peeks'] = rnd.random() < 0.4
         if rnd.random() < 0.1 and not big:
             # DrawSet(including, excluding): the constructor adds the elements in set-iteration order
             inc = [rnd.choice(uni) for _ in range(rnd.randrange(0, 25))]
@@ -536,6 +538,10 @@ class H(Harness):
         cost_checked = 0
         for i, (k, arg) in enumerate(case['ops']):
             st = {'reqs': [], 'ints': [], 'h_before': height}
+            if case.get('peeks') and i % 2 == 0:
+                it = iter(s)
+                next(it, None)
+                del it
             _counts['visits'] = 0
             rot0 = _counts['rot']
             try:
